@@ -103,11 +103,11 @@ def nev_int(v):
     return str(v) if v >= 0 else "(0 - %d)" % (-v) if v > INT_MIN else "(0 - 2147483647 - 1)"
 
 
-def literal(exts, base=1000):
-    """nested array literal holding base+p at flat position p"""
+def literal(exts, base=1000, step=1):
+    """nested array literal holding base+step*p at flat position p"""
     def go(d, off):
         if d == len(exts):
-            return str(base + off)
+            return str(base + step * off)
         sub = prod(exts[d + 1:])
         return "[" + ",".join(go(d + 1, off + i * sub) for i in range(exts[d])) + "]"
     return go(0, 0) + " : int"
@@ -128,6 +128,7 @@ def gen_direct(ctx):
     for dims in (1, 2, 3):
         for exts in itertools.product(range(0, 5), repeat=dims):
             lines.append("M " + " ".join(map(str, exts)))
+            lines.append("C " + " ".join(map(str, exts)))
             for idx in itertools.product(*[range(-1, n + 1) for n in exts]):
                 lines.append("A %s | %s" % (" ".join(map(str, exts)),
                                             " ".join(str(i % U32) for i in idx)))
@@ -168,6 +169,17 @@ def gen_direct(ctx):
         for _ in range(6):
             idx = [rng.choice([0, 1, n - 1, n, rng.randrange(0, n)]) for n in exts]
             lines.append("A %s | %s" % (" ".join(map(str, exts)), " ".join(map(str, idx))))
+    # shape copies (object_arr_dim_copy / object_arr_copy): up to 5 dimensions
+    for _ in range(n // 10):
+        d = rng.randint(1, 5)
+        k = rng.random()
+        if k < 0.4:
+            lines.append("C " + " ".join(str(rng.choice([1, 2, 3, 4, 5, 7, ru() or 1])) for _ in range(d)))
+        elif k < 0.7:
+            lines.append("CD " + " ".join("%d %d" % (ru(), ru()) for _ in range(d)))
+        else:
+            exts = [rng.randint(1, 6) for _ in range(d)]
+            lines.append("CO " + " ".join(map(str, exts)))
     for _ in range(n):
         k = rng.random()
         if k < 0.15:
@@ -230,6 +242,26 @@ def direct_oracle(line, out):
             if oob != -1 or addr != want:
                 return ("dim_addr:in-range", "object_arr_dim_addr(extents %s, index %s) -> addr %d oob %d; "
                         "row-major element is %d" % (exts, idx, addr, oob, want), "%d -1" % want)
+            return None
+        if cmd in ("C", "CD", "CO"):
+            nums = [int(x) for x in t[1:]]
+            got = [int(x) for x in o[1:]]
+            if cmd == "CD":
+                if got != nums:
+                    return ("dim_copy:not-a-copy", "object_arr_dim_copy of (extent, multiplier) pairs %s gives %s" % (
+                        nums, got), " ".join(map(str, nums)))
+                return None
+            if not (all(n > 0 for n in nums) and prod(nums) < U32):
+                return None
+            want = []
+            for k, n in enumerate(nums):
+                want += [n, prod(nums[k + 1:])]
+            if cmd == "CO":
+                want = [len(nums), prod(nums)] + want
+            if got != want:
+                return ("dim_copy:wrong-multiplier", "%s of shape %s gives %s, a row-major array of that shape has %s" % (
+                    "object_arr_copy" if cmd == "CO" else "object_arr_dim_copy", nums, got, want),
+                    " ".join(map(str, want)))
             return None
         if cmd == "R":
             a, b, c, d = [int(x) for x in t[1:5]]
@@ -302,7 +334,7 @@ def run_direct(ctx, drv):
         if v is not None:
             ctx.violation(v[0], v[1], {"case": ln, "expected": v[2], "observed": c,
                                        "replay": "echo '%s' > f; indexdrive f" % ln})
-        if ln[0] in "AR":
+        if ln[0] in "ARC":
             nontriv.add(ln)
     if first is not None:
         ctx.correspondence_broken("direct-calls(dim_mult/dim_addr/get_slice_range/can_add/can_mult)", first)
@@ -672,6 +704,154 @@ def gen_programs(ctx):
             cmd, mp = shape_model("HP", (l1,), (l2,), exp if l1 == l2 else None)
             p.add(Call("arr_" + op, "conforming" if l1 == l2 else "non-conforming", "v[%d] %s v[%d]" % (l1, op, l2),
                        "print(%s1(%s, %s))" % (op, literal((l1,), 10), literal((l2,), 100)), exp, cmd, mp))
+    progs.append(p)
+
+    # ---- arithmetic on 1..4-dimensional arrays: EVERY element of the result read back by index ---------
+    def show_fn(rank):
+        dn = ["Q%d" % k for k in range(rank)]
+        ix = ["i%d" % k for k in range(rank)]
+        body = "".join("    var %s = 0;\n" % v for v in ix) + "".join("    print(%s);\n" % d for d in dn)
+        loops = "".join("    " + "    " * k + "for (%s = 0; %s < %s; %s = %s + 1)\n" % (ix[k], ix[k], dn[k], ix[k], ix[k])
+                        for k in range(rank))
+        body += loops + "    " + "    " * rank + "print(c[%s]);\n    0\n" % ", ".join(ix)
+        return "func show%d(c[%s] : int) -> int\n{\n%s}\n" % (rank, ", ".join(dn), body)
+    decl = ""
+    for rank in (1, 2, 3, 4):
+        da = ", ".join("A%d" % k for k in range(rank))
+        db = ", ".join("B%d" % k for k in range(rank))
+        decl += show_fn(rank)
+        decl += "func add%d(a[%s] : int, b[%s] : int) -> int\n{\n    show%d(a + b)\n}\n%s" % (rank, da, db, rank, CATCH)
+        decl += "func sub%d(a[%s] : int, b[%s] : int) -> int\n{\n    show%d(a - b)\n}\n%s" % (rank, da, db, rank, CATCH)
+        decl += "func neg%d(a[%s] : int) -> int\n{\n    show%d(-a)\n}\n%s" % (rank, da, rank, CATCH)
+        decl += "func smul%d(a[%s] : int) -> int\n{\n    show%d(3 * a)\n}\n%s" % (rank, da, rank, CATCH)
+    p = Program("arith_nd", decl)
+    nd_shapes = [(4,), (1,), (2, 3), (3, 1), (2, 3, 4), (3, 2, 2), (1, 2, 3), (2, 1, 2), (4, 3, 2),
+                 (2, 2, 2, 2), (2, 3, 1, 2), (1, 2, 3, 2)]
+    if thorough:
+        nd_shapes += [(3, 3, 3), (2, 4, 3), (3, 2, 2, 2), (2, 2, 3, 2)]
+
+    def shown(exts, vals):
+        return [str(n) for n in exts] + [str(v) for v in vals] + ["0"]
+    for e1 in nd_shapes:
+        rank = len(e1)
+        n1 = prod(e1)
+        va = [1000 + q for q in range(n1)]
+        sh = " ".join(map(str, e1))
+        for fn, f in (("neg", lambda x: -x), ("smul", lambda x: 3 * x)):
+            exp = shown(e1, [f(x) for x in va])
+            cmd, mp = "HN " + sh, None
+
+            def mpu(ans, exp=exp):
+                t = ans.split()
+                return [x for x in t[1:]] + exp[len(t) - 1:] if t[0] == "ok" else None
+            p.add(Call("arr_" + fn, "result-read-back-%dd" % rank, "%s of a%s, every element" % (fn, list(e1)),
+                       "print(%s%d(%s))" % (fn, rank, literal(e1)), exp, cmd, mpu))
+        for e2 in nd_shapes:
+            if len(e2) != rank:
+                continue
+            vb = [50 + 7 * q for q in range(prod(e2))]
+            for fn, f in (("add", lambda x, y: x + y), ("sub", lambda x, y: x - y)):
+                if e1 == e2:
+                    exp, kind = shown(e1, [f(x, y) for x, y in zip(va, vb)]), "result-read-back-%dd" % rank
+                else:
+                    exp, kind = [E_SIZE], "non-conforming"
+                cmd = "HP %s | %s" % (sh, " ".join(map(str, e2)))
+
+                def mpb(ans, exp=exp, same=(e1 == e2)):
+                    t = ans.split()
+                    if t[0] == "size":
+                        return [E_SIZE]
+                    return [x for x in t[1:]] + exp[len(t) - 1:] if (t[0] == "ok" and same) else None
+                p.add(Call("arr_" + fn, kind, "a%s %s b%s, every element" % (list(e1), fn, list(e2)),
+                           "print(%s%d(%s, %s))" % (fn, rank, literal(e1), literal(e2, 50, 7)), exp, cmd, mpb))
+    progs.append(p)
+
+    # ---- use after iteration: iterating a range / slice / array must not change what it denotes -----
+    helpers = (
+        "func at_s(s[f .. t] : int, i : int) -> int\n{\n    s[i]\n}\n" + CATCH +
+        "func at_r(r[f .. t] : range, i : int) -> int\n{\n    r[i][0]\n}\n" + CATCH +
+        "func sub_s(s[f .. t] : int, c : int, d : int, k : int) -> int\n{\n    s[c .. d][k]\n}\n" + CATCH +
+        "func sub_r(r[f .. t] : range, c : int, d : int, k : int) -> int\n{\n    r[c .. d][k][0]\n}\n" + CATCH +
+        "func it_s(s[f .. t] : int) -> int\n{\n    for (e in s) print(e);\n    0\n}\n" + CATCH +
+        "func it_r(r[f .. t] : range) -> int\n{\n    for (e in r) print(e);\n    0\n}\n" + CATCH +
+        "func lc_s(s[f .. t] : int) -> int\n{\n    let l = [ e | e in s ] : int;\n    for (x in l) print(x);\n    0\n}\n" + CATCH +
+        "func lc_r(r[f .. t] : range) -> int\n{\n    let l = [ e | e in r ] : int;\n    for (x in l) print(x);\n    0\n}\n" + CATCH)
+
+    def scenario(name, params, setup, sfx):
+        """iterate; index all; iterate again; iterate through an alias in a callee; index through the
+        alias; list comprehension; index again; sub-slices; finally the array must be unchanged"""
+        x, at, it, lc, sub = "v", "at_" + sfx, "it_" + sfx, "lc_" + sfx, "sub_" + sfx
+        idx_all = "    for (i = 0; i <= n; i = i + 1) print(%s(%%s, i));\n    prints(\"|\\n\");\n" % at
+        body = (setup + "    let w = v;\n    var i = 0;\n"
+                "    for (e in v) print(e);\n    prints(\"|\\n\");\n" + idx_all % "v" +
+                "    for (e in v) print(e);\n    prints(\"|\\n\");\n"
+                "    %s(w);\n    prints(\"|\\n\");\n" % it + idx_all % "w" +
+                "    %s(v);\n    prints(\"|\\n\");\n" % lc + idx_all % "v" +
+                "    print(%s(v, 0, n - 1, n - 1));\n    print(%s(w, n - 1, 0, n - 1));\n    print(%s(v, 0, n, 0));\n"
+                "    prints(\"|\\n\");\n" % (sub, sub, sub) +
+                "    for (e in v) print(e);\n    prints(\"|\\n\");\n"
+                "    for (e in a) print(e);\n    0\n")
+        return "func %s(%s, n : int) -> int\n{\n    let a = %s;\n%s}\n%s" % (
+            name, ", ".join(q + " : int" for q in params), literal((N,)), body, CATCH)
+
+    def scenario_expect(vals):
+        n = len(vals)
+        v = [str(x) for x in vals]
+        allidx = v + [E_OOB]
+        out = v + ["|"] + allidx + ["|"] + v + ["|"] + v + ["|"] + allidx + ["|"] + v + ["|"] + allidx + ["|"]
+        out += [v[n - 1], v[0], E_OOB, "|"] + v + ["|"] + [str(1000 + q) for q in range(N)] + ["0"]
+        return out
+    decl = helpers
+    decl += scenario("uai_slice", ["a0", "b0"], "    let v = a[a0 .. b0];\n", "s")
+    decl += scenario("uai_slice2", ["a0", "b0", "c0", "d0"], "    let v = a[a0 .. b0][c0 .. d0];\n", "s")
+    decl += scenario("uai_range", ["a0", "b0"], "    let v = [a0 .. b0];\n", "r")
+    decl += scenario("uai_range2", ["a0", "b0", "c0", "d0"], "    let v = [a0 .. b0][c0 .. d0];\n", "r")
+    decl += ("func uai_array(n : int) -> int\n{\n    let a = %s;\n    let w = a;\n    var i = 0;\n"
+             "    for (e in a) print(e);\n    prints(\"|\\n\");\n"
+             "    for (i = 0; i < n; i = i + 1) print(w[i]);\n    prints(\"|\\n\");\n"
+             "    for (e in w) print(e);\n    prints(\"|\\n\");\n"
+             "    let l = [ e | e in a ] : int;\n    for (x in l) print(x);\n    prints(\"|\\n\");\n"
+             "    for (i = 0; i < n; i = i + 1) print(a[i]);\n    0\n}\n%s" % (literal((N,)), CATCH))
+    p = Program("use_after_iteration", decl)
+    one = [(1, 3), (3, 1), (0, 7), (7, 0), (4, 2), (2, 2), (0, 0), (7, 7), (5, 6), (6, 5)]
+    for (a, b) in one:
+        pos = rpositions(a, b)
+        p.add(Call("forin_slice", "use-after-iteration", "s = a[%d..%d]: iterate, index, iterate again, alias, sub-slice" % (a, b),
+                   "print(uai_slice(%s))" % args([a, b, len(pos)]), scenario_expect([1000 + q for q in pos])))
+    for (a, b) in one + [(-3, 2), (2, -3), (-5, -5)]:
+        pos = rpositions(a, b)
+        p.add(Call("forin_range", "use-after-iteration", "r = [%d..%d]: iterate, index, iterate again, alias, sub-range" % (a, b),
+                   "print(uai_range(%s))" % args([a, b, len(pos)]), scenario_expect(pos)))
+    two = [((1, 6), (1, 3)), ((1, 6), (3, 1)), ((6, 1), (0, 2)), ((6, 1), (4, 2)), ((0, 7), (7, 0)), ((7, 0), (7, 0)),
+           ((2, 5), (1, 1)), ((5, 2), (0, 3))]
+    for (a, b), (c, d) in two:
+        pos = [rnth(a, b, k) for k in rpositions(c, d)]
+        p.add(Call("forin_slice_of_slice", "use-after-iteration",
+                   "s = a[%d..%d][%d..%d]: iterate, index, iterate again, alias, sub-slice" % (a, b, c, d),
+                   "print(uai_slice2(%s))" % args([a, b, c, d, len(pos)]), scenario_expect([1000 + q for q in pos])))
+        p.add(Call("forin_range_of_range", "use-after-iteration",
+                   "r = [%d..%d][%d..%d]: iterate, index, iterate again, alias, sub-range" % (a, b, c, d),
+                   "print(uai_range2(%s))" % args([a, b, c, d, len(pos)]), scenario_expect(pos)))
+    av = [str(1000 + q) for q in range(N)]
+    p.add(Call("forin_array", "use-after-iteration", "a[8]: iterate, index through an alias, iterate the alias, comprehension",
+               "print(uai_array(%d))" % N, av + ["|"] + av + ["|"] + av + ["|"] + av + ["|"] + av + ["0"]))
+    progs.append(p)
+
+    # ---- bounds are values at construction time: changing the variables afterwards changes nothing ---
+    decl = ("func ba_slice(p0 : int, q0 : int, p1 : int, q1 : int, i : int) -> int\n{\n    let a = %s;\n"
+            "    var p = p0 + 0;\n    var q = q0 + 0;\n    let s = a[p .. q];\n    p = p1;\n    q = q1;\n    s[i]\n}\n%s"
+            "func ba_range(p0 : int, q0 : int, p1 : int, q1 : int, i : int) -> int\n{\n"
+            "    var p = p0 + 0;\n    var q = q0 + 0;\n    let r = [p .. q];\n    p = p1;\n    q = q1;\n    r[i][0]\n}\n%s" % (
+                literal((N,)), CATCH, CATCH))
+    p = Program("bounds_alias", decl)
+    for (p0, q0, p1, q1) in [(1, 4, 2, 4), (1, 4, 1, 2), (5, 2, 6, 2), (5, 2, 5, 4), (1, 4, 1, 4)]:
+        for i in range(0, rlen(p0, q0) + 1):
+            ok = i < rlen(p0, q0)
+            kind = "bounds-alias-variables" if (p0, q0) != (p1, q1) else "bounds-unchanged"
+            p.add(Call("slice", kind, "p=%d; q=%d; s = a[p..q]; p=%d; q=%d; s[%d]" % (p0, q0, p1, q1, i),
+                       "print(ba_slice(%s))" % args([p0, q0, p1, q1, i]), [str(1000 + rnth(p0, q0, i))] if ok else [E_OOB]))
+            p.add(Call("range", kind, "p=%d; q=%d; r = [p..q]; p=%d; q=%d; r[%d]" % (p0, q0, p1, q1, i),
+                       "print(ba_range(%s))" % args([p0, q0, p1, q1, i]), [str(rnth(p0, q0, i))] if ok else [E_OOB]))
     progs.append(p)
 
     # ---- what the mirrored code does not guarantee (Properties_C12.v *_refuted witnesses) ----------
